@@ -36,7 +36,7 @@ def shard_setup(obs) -> None:
 
 
 def gen_cases(tier: str, seed: int):
-    n = {"quick": 700, "thorough": 9000}[tier]
+    n = {"quick": 700, "thorough": 60000}[tier]
     rng = np.random.default_rng([seed, 2])
     combos = []
     for k in zoo.SYSTEMS:
